@@ -90,7 +90,7 @@ def wsu (c impl : List String) : Option Verdict := do
          note := if ok then "" else "Watch is not single-use: only the first call may pass the guard, every later call must panic" }
 
 /-- `wsc batches subscribers | ok` — Subscribe racing with notification in real time: the model's
-    `notify` and `subscribe` are total functions (`notify_total`); the implementation must complete
+    `notify` and `subscribe` are total functions (`notify_frame`); the implementation must complete
     (no blocked watcher, no blocked Subscribe, no panic, buffers bounded) -/
 def wsc (_c impl : List String) : Option Verdict :=
   pure { model := "ok", oracle := impl == ["ok"], nontrivial := true,
